@@ -266,6 +266,14 @@ func Pending() int {
 	return n
 }
 
+// Touch records that the replay is making progress (the harness is at one of its own points): the
+// idle rule below only applies while the harness goroutine is stuck inside the library.
+func Touch() {
+	mu.Lock()
+	lastAct = stdtime.Now()
+	mu.Unlock()
+}
+
 // IdleAdvance fires the earliest pending timer if nothing has touched the clock
 // for a while: it plays the engine's rule "time passes when no thread can run"
 // for harnesses whose main goroutine is blocked inside the library.
